@@ -12,6 +12,25 @@ GOENV = dict(os.environ, GOFLAGS="-mod=mod", GOPROXY="off", GOSUMDB="off", GOTOO
              CGO_ENABLED=os.environ.get("CGO_ENABLED", "1"))
 
 
+def _goenv():
+    """Go's build cache does not track assembly headers #included from ANOTHER package directory
+    (dh/x448/curve_amd64.s includes math/fp448/fp_amd64.h), so a changed header could leave a stale object in
+    the cache.  Key the cache directory by the digest of every .h file in the tree: unchanged tree -> the usual
+    warm cache; a modified header -> a fresh cache and a full (slow, correct) rebuild."""
+    h = hashlib.sha256()
+    for root, dirs, files in os.walk(REPO):
+        dirs[:] = sorted(x for x in dirs if x != ".git")
+        for f in sorted(files):
+            if f.endswith(".h"):
+                h.update(f.encode())
+                with open(os.path.join(root, f), "rb") as fh:
+                    h.update(fh.read())
+    base = os.environ.get("GOCACHE") or os.path.expanduser("~/.cache/go-build")
+    env = dict(GOENV)
+    env["GOCACHE"] = base + "-verif-" + h.hexdigest()[:12]
+    return env
+
+
 class Infra(Exception):
     """Something in the machinery (not the code under test) failed -> exit 2."""
 
@@ -114,7 +133,7 @@ def write_overlay(workdir, drivers=(), intree=()):
     zz_verif_<file> into $REPO/<pkg>/."""
     rep = {}
     hd = os.path.join(VERIF, "harness")
-    for name in set(drivers) | {"vlib"}:
+    for name in sorted(os.listdir(os.path.join(hd, "drivers"))):      # every helper package is visible to every build
         src = os.path.join(hd, "drivers", name)
         if not os.path.isdir(src):
             continue
@@ -141,7 +160,7 @@ def go_build_driver(workdir, name, tags="", race=False, out=None, timeout=900):
     if race:
         cmd += ["-race"]
     cmd += ["./zzverif/" + name]
-    p = subprocess.run(cmd, cwd=REPO, env=GOENV, stdout=subprocess.PIPE, stderr=subprocess.STDOUT,
+    p = subprocess.run(cmd, cwd=REPO, env=_goenv(), stdout=subprocess.PIPE, stderr=subprocess.STDOUT,
                        text=True, timeout=timeout)
     if p.returncode != 0:
         raise Infra("go build of driver %s failed (a renamed identifier or a tree that does not compile):\n%s"
@@ -160,7 +179,7 @@ def go_build_intree(workdir, pkg, tags="", race=False, timeout=900):
     if race:
         cmd += ["-race"]
     cmd += ["./" + pkg]
-    p = subprocess.run(cmd, cwd=REPO, env=GOENV, stdout=subprocess.PIPE, stderr=subprocess.STDOUT,
+    p = subprocess.run(cmd, cwd=REPO, env=_goenv(), stdout=subprocess.PIPE, stderr=subprocess.STDOUT,
                        text=True, timeout=timeout)
     if p.returncode != 0:
         raise Infra("go test -c of %s with in-tree harness failed:\n%s" % (pkg, p.stdout[-4000:]))
@@ -289,3 +308,34 @@ def validate_lines(w, module, cfg, lines, heap="4g", timeout=1800, tracefile="tr
     if isinstance(bad, dict):
         bad = list(bad.values())
     return sorted(int(b) - 1 for b in bad), r
+
+
+def validate_stateful(w, module, cfg, lines, trkey="tr", heap="4g", timeout=1800, max_rounds=12):
+    """Trace validation for traces made of several independent sub-traces (field `trkey`), each a stateful
+    history that starts with a reset/start line.  When TLC cannot consume a line the whole sub-trace is
+    reported as rejected (with the offending line) and validation continues with the others.
+    Returns (accepted_lines, rejected [(tr, line, tlc_tail)], total_states)."""
+    rejected, states = [], 0
+    cur = list(lines)
+    for _ in range(max_rounds):
+        if not cur:
+            break
+        write_ndjson(os.path.join(w, "trace.ndjson"), cur)
+        vp = os.path.join(w, "verdict.json")
+        if os.path.exists(vp):
+            os.remove(vp)
+        r = tlc(w, module, cfg, workers=1, heap=heap, timeout=timeout)
+        if not os.path.exists(vp):
+            raise Infra("trace validation %s produced no verdict:\n%s" % (module, r.tail(50)))
+        v = json.load(open(vp))
+        states += r.distinct
+        if v["consumed"] >= v["total"] and r.ok:
+            return cur, rejected, states
+        if v["consumed"] >= v["total"] and not r.ok:
+            raise Infra("trace validation %s: all lines consumed but TLC reported an error:\n%s" % (module, r.tail(50)))
+        b = cur[min(v["consumed"], len(cur) - 1)]
+        rejected.append((b[trkey], b, r.tail(10) if "is violated" in r.out else ""))
+        cur = [x for x in cur if x[trkey] != b[trkey]]
+    else:
+        rejected.append((-1, {"note": "more rejected sub-traces exist; enumeration stopped after %d" % max_rounds}, ""))
+    return cur, rejected, states
